@@ -53,6 +53,15 @@ def rand_state(rng, lo=6600.0, hi=45000.0):
     return [round(float(x) * 256) / 256 for x in r] + [round(float(x) * 65536) / 65536 for x in u]
 
 
+def int_state(rng, big=9000):
+    """a whole-number state with a well-defined orbit plane (position and velocity not aligned, neither zero)"""
+    while True:
+        r = [rng.randint(-big, big) for _ in range(3)]
+        v = [rng.randint(-8, 8) for _ in range(3)]
+        if np.linalg.norm(r) > 500 and np.linalg.norm(v) >= 1 and np.linalg.norm(np.cross(r, v)) > 500:
+            return [float(x) for x in r + v]
+
+
 def cases(run: Run):
     rng = run.rng
     out = list(corpus(PID))
@@ -69,6 +78,12 @@ def cases(run: Run):
         out.append({"op": "sez", "lat": rng.choice([0.0, 89.9, -89.9, 45.0, rng.uniform(-90, 90)]), "lon": rng.choice([0.0, 180.0, -180.0, 179.999, rng.uniform(-180, 180)]), "x": rand_state(rng, 100, 40000)})
         out.append({"op": "sph", "x": rand_state(rng, 100, 40000)})
         out.append({"op": "rsw", "t": rand_state(rng), "c": rand_state(rng)})
+        if rng.random() < 0.25:
+            # whole-number states handed over as integer arrays (basis vectors, offsets in whole km, values read from JSON):
+            # legal inputs of the rotation-only conversions, whose answers must still be real-valued rotations
+            out.append({"op": "sez", "int": True, "lat": rng.uniform(-90, 90), "lon": rng.uniform(-180, 180),
+                        "x": int_state(rng, 40000)})
+            out.append({"op": "rsw", "int": True, "t": int_state(rng), "c": int_state(rng)})
         out.append({"op": "lla", "lat": rng.choice([0.0, 90.0, -90.0, 45.0, rng.uniform(-90, 90)]), "lon": rng.choice([0.0, 180.0, -180.0, rng.uniform(-180, 180)]), "alt": rng.choice([0.0, 0.5, 800.0, 36000.0, -0.1])})
         out.append({"op": "razel", "date": rand_date(rng).isoformat(), "obs": rand_state(rng, 6378.2, 6400.0), "tgt": rand_state(rng)})
     for _ in range(run.n(200, 3000)):
@@ -143,7 +158,7 @@ def impl_case(c):
         return outs
     if op == "sez":
         lat, lon = math.radians(c["lat"]), math.radians(c["lon"])
-        x = np.array(c["x"])
+        x = np.array([int(v) for v in c["x"]]) if c.get("int") else np.array(c["x"])
         s = T.ecef2sez(x, lat, lon)
         b = T.sez2ecef(s, lat, lon)
         return {"sez": flat(s), "back": flat(b), "trig": [float(np.cos(lon)), float(np.sin(lon)), float(np.cos(lat - np.pi / 2)), float(np.sin(lat - np.pi / 2))],
@@ -157,6 +172,8 @@ def impl_case(c):
         return {"sph": [float(v) for v in sp], "back": flat(back), "razel": [float(v) for v in rz], "back2": flat(back2)}
     if op == "rsw":
         t, ch = np.array(c["t"]), np.array(c["c"])
+        if c.get("int"):
+            t, ch = np.array([int(v) for v in c["t"]]), np.array([int(v) for v in c["c"]])
         rel = T.eci2rsw(t, ch)
         back = T.rsw2eci(t, rel)
         ntw = T.ntw2eci(t, rel)
